@@ -15,10 +15,12 @@ NAME_POOLS = [
     ['alpha', 'alph', 'lpha', 'al', 'pha', 'e1', 'E', 'j1', 'J'],
     ['α', 'αβ', 'β', 'xα', 'naïve', 'x', 'y'],
     ['t', 'k', 'tt', 't_minus_1', 'LAG_t', 'T', 'K'],
+    ['e5', 'E5', 'e1', 'e10', 'x', 'y', 'j', 'J'],
 ]
 FUNCS = ['max', 'min', 'abs', 'pow', 'float', 'sqrt', 'exp']
 NUMBERS = ['1', '2', '0', '3', '10', '0.5', '.5', '5.', '1e5', '1E5', '1e-3', '2.5e+3', '0x1F', '0b101',
-           '0o17', '1_000', '1_0.0_1', '1j', '2.5J', '1e1_0', '0.', '00', '1.5e2']
+           '0o17', '1_000', '1_0.0_1', '1j', '2.5J', '1e1_0', '0.', '00', '1.5e2',
+           '2.e5', '1.E5', '4.e1', '1.e10', '3.j', '2.J']
 # number literals chosen so that glueing a following name would change the token stream are always
 # separated by a space by the renderer.
 STRINGS = ['"a b"', "'x'", '"x + y"', "'a = 1'", '"HH__F"', 'r"\\d"', 'b"x"', '"#x"']
